@@ -7,6 +7,7 @@ value equals the reference evaluation of the dependency graph (injective nested 
 post-run history (run(), result reads, metadata, to_string(), validate_params) adds zero execute events.
 """
 import itertools
+import os
 import random
 
 import numpy
@@ -20,7 +21,7 @@ RULE = ("(i) all 64 edge subsets of the 4-node topological order x 24 textual or
         "result names, side-effect-only sinks returning None, forward references), several programs per process; (iii) random EEMS models; "
         "each followed by a random history of 0-8 run()/result/metadata/to_string/validate_params steps; distinct by (n, edge count, "
         "styles used, has-sink, has-colliding-strings, history step kinds)")
-REQUIRED_COUNTERS = ["foreign_reference_programs", "programs_run", "execute_events", "read_events", "history_steps", "reference_values_compared", "flatten_contract_evaluations", "retry_programs", "grown_programs", "api_built_programs", "inside_execute_records_compared", "large_result_programs", "deep_chain_programs", "program_copies_checked", "programs_evaluated_through_their_commands_only"]
+REQUIRED_COUNTERS = ["edited_programs_run", "foreign_reference_programs", "programs_run", "execute_events", "read_events", "history_steps", "reference_values_compared", "flatten_contract_evaluations", "retry_programs", "grown_programs", "api_built_programs", "inside_execute_records_compared", "large_result_programs", "deep_chain_programs", "program_copies_checked", "programs_evaluated_through_their_commands_only"]
 EXHAUSTIVE_NOTE = "thorough tier enumerates all 64 x 24 x 3 four-command programs"
 ASSUMPTIONS = ["a chain of %d direct references must run under the default recursion limit (the pinned tree manages about 330; deeper chains are left to C13: whatever happens there must be an MPilot error)" % 210,
                "programs that fail to run are judged elsewhere (C12-C14) unless the program is valid by construction",
@@ -305,6 +306,8 @@ def cases(ctx):
     # not this program's own (another program's command of the same name, a stand-alone finished command)
     for i in range(ctx.n(40, 2400)):
         yield {"kind": "foreign", "rseed": rng.randrange(10 ** 9), "variant": i % 4}
+    for i in range(ctx.n(40, 2400)):
+        yield {"kind": "edited", "rseed": rng.randrange(10 ** 9), "variant": i % 3}
     for i in range(ctx.n(250, 12000)):
         m = models.gen_model(rng, n_ops=rng.randint(1, 10), sinks=True, metadata=rng.random() < 0.3, libs="nc" if i % 3 == 0 else "csv")
         m = models.permuted(m, rng)
@@ -441,6 +444,8 @@ def run_case(ctx, case):
         return run_chain(ctx, case)
     if case["kind"] == "foreign":
         return run_foreign(ctx, case)
+    if case["kind"] == "edited":
+        return run_edited(ctx, case)
     nodes = case["nodes"]
     names = [nd["name"] for nd in nodes]
     import vprobe
@@ -739,6 +744,77 @@ def run_eems(ctx, case):
         return
     kinds = run_history(ctx, prog, names, returned, case["history"], "eems", detail)
     ctx.feature(("eems", len(names), tuple(sorted(set(kinds)))))
+
+
+def run_edited(ctx, case):
+    """Programs edited the documented way before they are run (a consumer removed with del program.commands[name]), and a
+    model that rewrites the table it reads with the writer listed first: every command of the program executes exactly once,
+    fed by finished dependencies."""
+    import vprobe
+    from mpilot.program import Program
+    rng = random.Random(case["rseed"])
+    if case["variant"] < 2:
+        n = rng.randint(3, 7)
+        prog = Program(libraries=("vprobe",))
+        names = []
+        for i in range(n):
+            nm = "N%d" % i
+            if i < 2 or rng.random() < 0.3:
+                prog.add_command(prog.find_command_class("Src"), nm, {"V": i})
+            else:
+                prog.add_command(prog.find_command_class("Op"), nm, {"L": rng.sample(names, rng.randint(1, min(3, len(names))))})
+            names.append(nm)
+        # consumers that are removed again before the run (direct consumers of the sources among them)
+        extra = []
+        for k in range(rng.randint(1, 3)):
+            nm = "X%d" % k
+            prog.add_command(prog.find_command_class("Op"), nm, {"A": names[k % 2], "L": [rng.choice(names)]})
+            extra.append(nm)
+        if case["variant"] == 1:
+            prog.add_command(prog.find_command_class("Sink"), "S", {"L": [extra[0]]})
+            extra.append("S")
+        for nm in reversed(extra):
+            del prog.commands[nm]
+        ctx.count("programs_run")
+        ctx.count("edited_programs_run")
+        ctx.feature(("edited", case["variant"], n, len(extra)))
+        del vprobe.EXEC_LOG[:]
+        try:
+            prog.run()
+        except Exception as e:
+            ctx.fail("edited:valid-program-does-not-run:%s" % type(e).__name__, {"error": str(e)[:200]})
+            return
+        from collections import Counter
+        cnt = Counter(vprobe.EXEC_LOG)
+        bad = {nm: cnt.get(nm, 0) for nm in names if cnt.get(nm, 0) != 1}
+        if bad or any(nm in cnt for nm in extra):
+            ctx.fail("edited:consumer-removed-before-the-run:%s" % ("not-executed-by-run" if any(v == 0 for v in bad.values()) else "executed-more-than-once" if bad else "removed-command-executed"), {"executions": bad, "removed": extra})
+        return
+    # the table a model reads is the table it writes; the writer stands first in the file
+    d = ctx.scratch()
+    with open(os.path.join(d, "table.csv"), "w") as f:
+        f.write("a,b\n1,10\n2,20\n3,30\n")
+    text = ('Out = EEMSWrite(OutFileName = "table.csv", OutFieldNames = [T, A])\nT = Sum(InFieldNames = [A, B])\n'
+            'A = EEMSRead(InFileName = "table.csv", InFieldName = a)\nB = EEMSRead(InFileName = "table.csv", InFieldName = b)\n')
+    ctx.count("programs_run")
+    ctx.count("edited_programs_run")
+    ctx.feature(("edited", "in-place-table"))
+    try:
+        prog = Program.from_source(text, working_dir=d)
+        log = trace.start()
+        trace.attach(prog)
+        try:
+            prog.run()
+        finally:
+            trace.stop()
+    except Exception as e:
+        ctx.fail("in-place-table:valid-model-does-not-run:%s" % type(e).__name__, {"error": str(e)[:200], "file_now": open(os.path.join(d, "table.csv")).read()[:80]})
+        return
+    if check_log(ctx, log, {"Out", "T", "A", "B"}, "in-place-table", {"text": text}) is None:
+        return
+    got = open(os.path.join(d, "table.csv")).read().split()
+    if got[:1] != ["T,A"] or len(got) != 4:
+        ctx.fail("in-place-table:file-not-rewritten-from-the-values-read", {"file": got[:5]})
 
 
 def run_retry(ctx, case):
